@@ -20,6 +20,7 @@ SNIPPETS = [
     ("obj:method(a, {1, 2}):other()\n", "lua51"), ("local s = ('x'):rep(3) .. \"y\"\n", "lua51"), ("local x = (a or b) and not c\n", "lua51"),
     ("local x = #t + -n\n", "lua51"), ("f{ a = 1 }\n", "lua51"), ("f'str'\n", "lua51"), ("local a = b.c.d.e(f)(g)\n", "lua51"),
     ("x = y == z and 1 or 2\n", "lua51"), ("return a, b + c, d\n", "lua51"), ("local v = t[k][1].f\n", "lua51"),
+    ("local n, last = 0, queue.tail\n", "lua51"), ("a, b = 'x', f()\n", "lua51"), ("local t, u = {}, v[1]\n", "lua51"), ("local f, g = function() end, h\n", "lua51"),
     # statements
     ("if a then b() elseif c then d() else e() end\n", "lua51"), ("while a do b() end\n", "lua51"), ("repeat a() until b\n", "lua51"),
     ("for i = 1, 10, 2 do f(i) end\n", "lua51"), ("for k, v in pairs(t) do f(k) end\n", "lua51"), ("do local a = 1 end\n", "lua51"),
@@ -63,6 +64,15 @@ def inputs():
             for c, cname in COMMENTS:
                 src = s[:b] + c + s[b:]
                 out.append((f"s{si}_b{b}_{cname}", src, syn))
+        # second family (C01 / C02, the separator rule): behind every line of the program a `;` and a statement that starts with a
+        # parenthesis — the semicolon has to survive wherever the two would otherwise be read as one call (inputs that do not parse,
+        # because the line does not end a statement, are skipped by the replay tool)
+        lines = s.split("\n")
+        for li in range(len(lines) - 1):
+            if not lines[li].strip(): continue
+            for tail, tname in (("(vx)()", "call"), ("(vx or vy).z = 1", "assign")):
+                src = "\n".join(lines[:li] + [lines[li] + ";", tail] + lines[li + 1:])
+                out.append((f"s{si}_p{li}_{tname}", src, syn))
     return out
 
 def key(src, syn, kind, opts=None):
